@@ -60,7 +60,9 @@ type world struct {
 	mocks   map[string]Handler
 }
 
-var c17HeadersOfInterest = []string{"Content-Type", "X-Verif-Call", "X-Tenant", "X-Trace", "X-Beta", "X-Api-Key", "X-Request-Id"}
+var c17Shared = KV{"X-Verif-Shared", "s1"}
+
+var c17HeadersOfInterest = []string{"Content-Type", "X-Verif-Call", "X-Verif-Shared", "X-Tenant", "X-Trace", "X-Beta", "X-Api-Key", "X-Request-Id"}
 
 func newWorld(u *JobUnit) (*world, error) { return newWorldOpts(u, "all") }
 
@@ -106,7 +108,7 @@ func newWorldOpts(u *JobUnit, hooks string) (*world, error) {
 				}
 			}
 		}
-		w.clients[js.Name] = svc.NewClient("http://verif.test", hc, ClientOpts{DefaultHeaders: defaults})
+		w.clients[js.Name] = svc.NewClient("http://verif.test", hc, ClientOpts{DefaultHeaders: defaults, SharedCallOptions: []KV{c17Shared}})
 		if svc.NewMock != nil {
 			w.mocks[js.Name] = svc.NewMock()
 		}
@@ -200,6 +202,14 @@ func c17Alphabet(u *JobUnit) ([]*call, error) {
 			}
 			out = append(out, &call{name: fmt.Sprintf("%s.%s/percall-header+proto", js.Name, m.Name), svc: js.Name, method: m, req: valid,
 				opts: CallOpts{ContentType: "application/x-protobuf", Headers: append(append([]KV(nil), methHdr...), KV{"X-Verif-Call", fmt.Sprintf("c%d", n)})}})
+			if mi == 0 {
+				// one call-option VALUE (built once per client) passed to several calls: first in a call that adds a header option of
+				// its own after it, and alone - what one call adds must not travel with the shared value into another call
+				out = append(out, &call{name: fmt.Sprintf("%s.%s/shared-option+header", js.Name, m.Name), svc: js.Name, method: m, req: valid,
+					opts: CallOpts{Shared: []KV{c17Shared}, Headers: append(append([]KV(nil), methHdr...), KV{"X-Verif-Call", fmt.Sprintf("s%d", n)})}})
+				out = append(out, &call{name: fmt.Sprintf("%s.%s/shared-option", js.Name, m.Name), svc: js.Name, method: m, req: valid,
+					opts: CallOpts{Shared: []KV{c17Shared}, Headers: methHdr}})
+			}
 			// a second valid value so that requests of concurrent calls differ
 			for di, d := range dims {
 				if len(d.Alts) > widx[di]+1 {
